@@ -510,6 +510,9 @@ class ObjectBase(EntityContainer):
         if not isinstance(children, list):
             children = [children]
 
+        # unlink in the file first: a refusal (read-only workspace) leaves the object as it is
+        self.workspace.remove_children(self, children)
+
         for child in children:
             if child not in self._children:
                 continue
@@ -523,8 +526,6 @@ class ObjectBase(EntityContainer):
                 self._visual_parameters = None
 
             self._children.remove(child)
-
-        self.workspace.remove_children(self, children)
 
     def remove_children_values(
         self,
